@@ -437,6 +437,28 @@ func c17Counts(f *xl.File) (string, int, bool) {
 	return s, nxf, ok
 }
 
+// c17XfNumFmtID reads the numFmtId of cellXfs[id] from the table dump (-1 if absent).
+func c17XfNumFmtID(f *xl.File, id int) int {
+	d := xl.VerifC17DumpStyles(f)
+	i := strings.Index(d, "xfs=")
+	if i < 0 {
+		return -1
+	}
+	j := strings.Index(d[i:], ":[")
+	if j < 0 {
+		return -1
+	}
+	xfs := strings.Split(strings.TrimSuffix(d[i+j+2:], "]"), ";")
+	if id < 0 || id >= len(xfs) {
+		return -1
+	}
+	n, err := strconv.Atoi(strings.SplitN(xfs[id], ".", 2)[0])
+	if err != nil {
+		return -1
+	}
+	return n
+}
+
 func (h *c17H) getEnc(id int) (string, bool) {
 	var st *xl.Style
 	var err error
@@ -551,7 +573,7 @@ func (h *c17H) doNew(line string, w []string) {
 		h.r.Stat("idem:checked")
 		if prev != id {
 			sig := c17IdemClass(req)
-			if sig == "idem:other" && h.wb.dupCur[key] {
+			if (sig == "idem:other" || sig == "idem:component-index-0") && h.wb.dupCur[key] {
 				sig = "idem:currency-duplicate-code"
 			}
 			h.r.Fail(sig, fmt.Sprintf("NewStyle of a definition registered before returned id %d, first registration returned %d: %s", id, prev, key), ln, h.replay())
@@ -587,6 +609,11 @@ func (h *c17H) doNew(line string, w []string) {
 				gs, _ := h.wb.f.GetStyle(id)
 				if gs != nil && gs.CustomNumFmt != nil && exp.CustomNumFmt != nil && *gs.CustomNumFmt != *exp.CustomNumFmt {
 					sig = "readback:currency-id-collision"
+					if c17XfNumFmtID(h.wb.f, id) != req.NumFmt {
+						// not found through the raw id: the xf of another DecimalPlaces/NegRed variant of the
+						// same currency format was returned through the format-code lookup
+						sig = "readback:currency-variant-folded"
+					}
 				}
 			}
 			h.r.Fail(sig, fmt.Sprintf("GetStyle(NewStyle(s)) = %q, default-normalised s = %q", got, c17EncStyle(&exp)), ln, h.replay())
@@ -645,7 +672,9 @@ func (h *c17H) doRereg(line string, id int) {
 		h.r.Fail(sig, fmt.Sprintf("GetStyle(%d) = %q but GetStyle(NewStyle(that)) = %q", id, genc, g2), ln, h.replay())
 	}
 	// the read-back definition registered again must give the id just issued
-	key := "rereg:" + c17Canon(genc)
+	// keyed by the literal definition, like `new`: a zero-valued Alignment and no Alignment are
+	// different requests for NewStyle (they may get different ids) although they read as one definition
+	key := "rereg:" + genc
 	if prev, seen := h.wb.issued[key]; seen {
 		h.r.Stat("idem:checked")
 		if prev != id2 {
@@ -1123,8 +1152,23 @@ func (h *c17H) genCase(rng *Rng, nops int, gridHeavy bool) {
 			if rng.Chance(25) {
 				h.exec(line)
 			}
-		case x < 42 && len(reqs) > 0:
+		case x < 38 && len(reqs) > 0:
 			h.exec(reqs[rng.Intn(len(reqs))])
+		case x < 42 && len(reqs) > 0:
+			// an earlier definition with only its number-format fields changed
+			w := strings.Fields(reqs[rng.Intn(len(reqs))])
+			if st, ok := c17DecStyle(w[1:]); ok {
+				st.NumFmt = rng.Pick2([]int{st.NumFmt, st.NumFmt, 165, 164, 4, 2})
+				st.DecimalPlaces, st.NegRed = nil, rng.Chance(25)
+				if rng.Chance(60) {
+					d := rng.Pick2([]int{0, 2, 3})
+					st.DecimalPlaces = &d
+				}
+				line := "new " + c17EncStyle(st)
+				reqs = append(reqs, line)
+				h.r.Stat("new:numfmt-variant")
+				h.exec(line)
+			}
 		case x < 50:
 			h.exec(fmt.Sprintf("rereg %d", rng.Intn(h.wb.nxf)))
 		case x < 58:
@@ -1233,6 +1277,9 @@ func (h *c17H) witnesses() {
 		&xl.Style{Fill: xl.Fill{Type: "pattern", Pattern: 0}}, &xl.Style{Fill: xl.Fill{Type: "pattern", Pattern: 19, Color: []string{"112233"}}})
 	run(&xl.Style{Font: &xl.Font{Bold: true}, NumFmt: 165}, &xl.Style{NumFmt: 165})
 	run(&xl.Style{NumFmt: 165, DecimalPlaces: ip(3)}, &xl.Style{NumFmt: 164})
+	// variants of one currency format that differ only in DecimalPlaces / NegRed must stay apart
+	run(&xl.Style{NumFmt: 165}, &xl.Style{NumFmt: 165, DecimalPlaces: ip(3)}, &xl.Style{NumFmt: 165, DecimalPlaces: ip(0)},
+		&xl.Style{NumFmt: 165, NegRed: true}, &xl.Style{NumFmt: 4}, &xl.Style{NumFmt: 4, DecimalPlaces: ip(3)}, &xl.Style{NumFmt: 4, NegRed: true})
 	run(&xl.Style{}, &xl.Style{Font: &xl.Font{Bold: true}}, &xl.Style{Alignment: &xl.Alignment{}}, &xl.Style{Protection: &xl.Protection{}},
 		&xl.Style{CustomNumFmt: sp("0.000")}, &xl.Style{CustomNumFmt: sp("")}, &xl.Style{NumFmt: 165}, &xl.Style{NumFmt: 165, DecimalPlaces: ip(2)},
 		&xl.Style{Fill: xl.Fill{Type: "pattern", Pattern: 1, Color: []string{"#aabbcc"}}, Alignment: &xl.Alignment{}})
